@@ -81,7 +81,7 @@ func startL1Node(ch *fakes.Chain, dir string, chunk uint64, startFirst bool, sec
 			cancel()
 			return nil, err
 		}
-		drv, err := aggsync.NewEVMDriver(rd, second, d, "secondSyncer", 100, rh, false)
+		drv, err := aggsync.NewEVMDriver(&trackRecorder{ReorgDetector: rd, p: second}, second, d, "secondSyncer", 100, rh, false)
 		if err != nil {
 			cancel()
 			return nil, err
@@ -278,6 +278,17 @@ func c06Free(r *mon.Run, caseID string, g *rand.Rand, cfg c06Cfg) {
 				if time.Now().After(end) {
 					_, calls := second.snapshot()
 					diff = "second syncer sharing the detector: " + what + "; calls " + summarizeCalls(calls, 40)
+					scen["second_store_calls"] = summarizeCalls(calls, 600)
+					var forks []string
+					for _, e := range ch.Events() {
+						if strings.HasPrefix(e, "fork") || strings.HasPrefix(e, "mine") || strings.HasPrefix(e, "finalize") {
+							forks = append(forks, e)
+						}
+					}
+					if len(forks) > 300 {
+						forks = forks[:300]
+					}
+					scen["chain_mine_and_fork_events"] = forks
 					break
 				}
 				time.Sleep(3 * time.Millisecond)
@@ -726,4 +737,23 @@ func blockedAggkitGoroutines() []string {
 		}
 	}
 	return out
+}
+
+// trackRecorder wraps the real detector for the second syncer and records its AddBlockToTrack
+// calls into the recording store's call list (so a witness shows what was tracked when)
+type trackRecorder struct {
+	*reorgdetector.ReorgDetector
+	p *memProc
+}
+
+func (t *trackRecorder) AddBlockToTrack(ctx context.Context, id string, num uint64, hash common.Hash) error {
+	err := t.ReorgDetector.AddBlockToTrack(ctx, id, num, hash)
+	t.p.mu.Lock()
+	c := procCall{Op: "track", Num: num, Hash: hash}
+	if err != nil {
+		c.Err = err.Error()
+	}
+	t.p.calls = append(t.p.calls, c)
+	t.p.mu.Unlock()
+	return err
 }
